@@ -54,6 +54,8 @@ def plan(tier, seed):
         for p in sel:
             specs.append(dict(kind='sets', order=order, part=p, parts=parts))
     cfgs = [dict(kind='bdd', nmax=5, init_vars=4),
+            dict(kind='bdd', nmax=5, init_vars=4, reordering=True,
+                 reorder_starts=4),
             dict(kind='bdd', nmax=4, init_vars=3),
             dict(kind='bdd', nmax=6, init_vars=6, semantic=False),
             dict(kind='bdd', nmax=3, init_vars=2),
@@ -61,6 +63,8 @@ def plan(tier, seed):
             dict(kind='bdd', nmax=2, init_vars=0),
             dict(kind='bdd', nmax=2, init_vars=1)]
     cfgs_ar = [dict(kind='autoref', nmax=5, init_vars=4),
+               dict(kind='autoref', nmax=5, init_vars=4, reordering=True,
+                    reorder_starts=8),
                dict(kind='autoref', nmax=4, init_vars=4)]
     k = 16 if tier == 'thorough' else 8
     for s in range(k):
